@@ -124,6 +124,24 @@ def programs(tier: str):
             yield {"family": "scope", "block": b, "cancels": 1, "outer": False, "fine": True}
             if b["spawns"]:
                 yield {"family": "scope", "block": dict(b, ending="raise"), "cancels": 1, "outer": False, "fine": True}
+    # MANY disposables (4..9; thorough 13, 17): one or two of them suspend while entering / exiting,
+    # the cancellation lands while the scope waits for them (in any "batch" an implementation may
+    # form); a blocked spawned task must be cancelled with the victim
+    okd = {"enter": "ok", "exit": "ok", "yields": "none"}
+    for k in (4, 5, 6, 9) if tier == "quick" else (4, 5, 6, 7, 9, 13, 17):
+        for pos in sorted({0, 1, 2, 3, k // 2, k - 2, k - 1}):
+            for beh in (("ok", "susp_ok"), ("susp_ok", "ok"), ("ok", "susp_raise"), ("susp_ok", "susp_ok")):
+                for with_task in (False, True):
+                    disp = [dict(okd) for _ in range(k)]
+                    disp[pos] = {"enter": beh[0], "exit": beh[1], "yields": "none"}
+                    yield {"family": "scope", "block": {"kind": "ascope", "supply": ["A"], "disp": disp, "spawns": [dict(SPAWN[0])] if with_task else [], "pause": True, "ending": "return"}, "cancels": 1, "outer": False}
+        for p1, p2 in ((0, k - 1), (1, k - 2), (3, 4 % k)):
+            if p1 == p2:
+                continue
+            disp = [dict(okd) for _ in range(k)]
+            disp[p1] = {"enter": "ok", "exit": "susp_ok", "yields": "none"}
+            disp[p2] = {"enter": "ok", "exit": "susp_ok", "yields": "none"}
+            yield {"family": "scope", "block": {"kind": "ascope", "supply": ["A"], "disp": disp, "spawns": [dict(SPAWN[0])], "pause": True, "ending": "return"}, "cancels": 1, "outer": False}
     # nested: an inner block of every kind inside a simple / busy outer scope
     inner_kinds = [
         {"kind": "sscope", "supply": ["A"], "pause": True, "ending": "return"},
